@@ -84,7 +84,87 @@ def oracle(seed, tier):
                     bad("background %s block is not zero" % {2: "composition", 3: "grains", 5: "velocity"}[pr[0]])
         if len(samples) < 3:
             samples.append({"world": path, "point": p, "depth": d, "answer": out[i][:200], "expected_T": expT})
-    return {"violations": trim_violations(viol, 20), "summary": {"cases": cases, "violations": len(viol), "nontrivial": nontriv}, "samples": samples}
+    # ---- 'outside' decided from the file alone (not from the library's tag): one area feature over a square whose min and/or max depth is an affine depth surface
+    # (every corner listed, so the local bound is that affine function) or a constant; points above the local top, below the local bottom and beside the polygon are
+    # outside every feature and must carry the background state
+    c2, n2 = geometric_outside(rng, tier, wdir, viol)
+    return {"violations": trim_violations(viol, 20), "summary": {"cases": cases + c2, "violations": len(viol), "nontrivial": nontriv + n2, "outside_by_geometry": c2}, "samples": samples}
+
+
+def geometric_outside(rng, tier, wdir, viol):
+    cases = nontriv = 0
+    kinds = ["continental plate", "oceanic plate", "mantle layer"]
+    for wi in range(budget(tier, 12, 120)):
+        kind = kinds[wi % 3]
+        sph = (wi // 3) % 2 == 1
+        c = [rng.choice([20.0, -60.0, 150.0]), rng.choice([10.0, -35.0])] if sph else [rng.choice([200e3, -350e3]), rng.choice([150e3, -500e3])]
+        h = 6.0 if sph else 300e3
+        sq = [[c[0] - h, c[1] - h], [c[0] + h, c[1] - h], [c[0] + h, c[1] + h], [c[0] - h, c[1] + h]]
+        def surf(base, amp):
+            bx, by = rng.choice([-1, 0.5, 1]) * amp / h, rng.choice([-0.5, 0, 1]) * amp / h
+            fn = lambda q, base=base, bx=bx, by=by: base + bx * (q[0] - c[0]) + by * (q[1] - c[1])
+            return fn, [[fn(p), [list(p)]] for p in sq]
+        mode = ["min-surface/max-const", "min-const/max-surface", "both-surfaces", "min-surface/max-default"][(wi // 6) % 4]
+        fmin, emin = ((lambda q: 100e3), 100e3) if mode == "min-const/max-surface" else surf(150e3, 60e3)
+        if mode in ("min-const/max-surface", "both-surfaces"):
+            fmax, emax = surf(420e3, 50e3)
+        elif mode == "min-surface/max-default":
+            fmax, emax = (lambda q: 1e300), None
+        else:
+            fmax, emax = (lambda q: 400e3), 400e3
+        f = {"model": kind, "name": "f", "coordinates": sq, "min depth": emin, "temperature models": [{"model": "uniform", "temperature": 1234}],
+             "composition models": [{"model": "uniform", "compositions": [0]}], "velocity models": [{"model": "uniform raw", "velocity": [0.01, 0.02, 0.03]}],
+             "grains models": [{"model": "uniform", "compositions": [0], "grain sizes": [0.5], "rotation matrices": [[[0, -1, 0], [1, 0, 0], [0, 0, 1]]]}]}
+        if emax is not None:
+            f["max depth"] = emax
+        Tp, al, cp, gr = rng.choice([1600.0, 1500.5]), rng.choice([3.5e-5, 2e-5]), rng.choice([1250.0, 1000.0]), rng.choice([9.81, 10.0])
+        w = {"version": "1.1", "potential mantle temperature": Tp, "thermal expansion coefficient": al, "specific heat": cp, "gravity model": {"model": "uniform", "magnitude": gr}, "features": [f]}
+        R = 6371000.0
+        if sph:
+            w["coordinate system"] = {"model": "spherical", "depth method": "begin segment"}
+        path = os.path.join(wdir, "geo_%d.wb" % wi)
+        json.dump(w, open(path, "w"))
+        def p3(q, d):
+            if not sph:
+                return [q[0], q[1], 1000e3 - d]
+            lo, la, r = math.radians(q[0]), math.radians(q[1]), R - d
+            return [r * math.cos(la) * math.cos(lo), r * math.cos(la) * math.sin(lo), r * math.sin(la)]
+        props = [(4, 0, 0), (1, 0, 0), (2, 0, 0), (3, 0, 1), (5, 0, 0)]
+        pts = []
+        for _ in range(budget(tier, 14, 30)):
+            q = [c[0] + rng.uniform(-0.9, 0.9) * h, c[1] + rng.uniform(-0.9, 0.9) * h]
+            lo, hi = fmin(q), fmax(q)
+            pts.append((q, lo - rng.uniform(0.02, 0.9) * lo, "above the local top %.6g" % lo))
+            if hi < 1e299:
+                pts.append((q, hi + rng.uniform(2e3, 100e3), "below the local bottom %.6g" % hi))
+            pts.append((q, rng.uniform(lo + 1e3, min(hi, 600e3) - 1e3), None))                      # inside: must carry the feature (non-vacuity of the geometry)
+        for _ in range(4):
+            q = [c[0] + rng.choice([-1, 1]) * rng.uniform(1.1, 1.6) * h, c[1] + rng.uniform(-1.5, 1.5) * h]
+            pts.append((q, rng.uniform(0, 500e3), "beside the polygon"))
+        lines = ["world w %s -" % path] + [q3("w", p3(q, d), d, props) for (q, d, _) in pts]
+        rc, out, err = proto.run_harness(lines)
+        if rc != 0 or len(out) != len(lines) or out[0] != "ok":
+            viol.append({"what": "library failed on a structured outside-world: rc=%s %s %s" % (rc, out[:1], err[-200:]), "world_json": w}); continue
+        for (q, d, why), o, cmd in zip(pts, out[1:], lines[1:]):
+            a = parse_answer(o)
+            cases += 1
+            if a[0] != "ok":
+                viol.append({"what": "query failed: %s" % (a,), "world_json": w, "cmd": cmd}); break
+            b = split_blocks(a[1], props)
+            if why is None:
+                if b[0][0] != -1.0:
+                    nontriv += 1
+                else:
+                    viol.append({"what": "%s (%s, %s): a point inside the declared footprint and depth range [%.6g, %.6g] (depth %.6g at %s) is not inside the feature" % (
+                        kind, "spherical" if sph else "cartesian", mode, fmin(q), fmax(q), d, [round(v, 6) for v in q]), "world_json": w, "world": path, "cmd": cmd}); break
+                continue
+            expT = Tp * math.exp(al * gr * d / cp)
+            ok = b[0][0] == -1.0 and abs(b[1][0] - expT) <= 1e-12 * abs(expT) and all(v == 0.0 for blk in b[2:] for v in blk)
+            if not ok:
+                viol.append({"what": "%s (%s, %s): the point at %s depth %.6g is %s, hence outside every feature, but the answer is tag %g, T %.9g (background %.9g), composition %g, velocity %s" % (
+                    kind, "spherical" if sph else "cartesian", mode, [round(v, 6) for v in q], d, why, b[0][0], b[1][0], expT, b[2][0], b[4]), "world_json": w, "world": path, "cmd": cmd})
+                break
+    return cases, nontriv
 
 
 def replay(rp):
